@@ -510,13 +510,11 @@ Proof. repeat split; vm_compute; reflexivity. Qed.
 (* ilu0 constructor (LowLevel2I.v): 1 x 1; the two preconditions; a row without diagonal and without
    upper entries leaves D[1] unwritten -- returned as such, and read by the next row that refers to it *)
 Example C10_ll2_ilu0_examples :
-  (exists st, ll_ilu0 (flat_of (mkCrs 1 [[(0, q10 4)]])) = Done (EOk st) /\ idd st = filled [qc 1 4] /\ ilh st = 0 /\ iuh st = 0) /\
+  match ll_ilu0 (flat_of (mkCrs 1 [[(0, q10 4)]])) with
+  | Done (EOk st) => (idd st, ilh st, iuh st) | _ => ([], 1, 1) end = (filled [qc 1 4], 0, 0) /\
   ll_ilu0 (flat_of (mkCrs 1 [[(0, q10 0)]])) = Done (EThrow Ilu.ZeroPivot) /\
   ll_ilu0 (flat_of (mkCrs 2 [[(1, q10 1)]; [(1, q10 1)]])) = Done (EThrow Ilu.NoDiag) /\
-  (exists st, ll_ilu0 (flat_of (mkCrs 2 [[(0, q10 2)]; [(0, q10 1)]])) = Done (EOk st) /\ idd st = [Some (qc 1 2); None]) /\
+  match ll_ilu0 (flat_of (mkCrs 2 [[(0, q10 2)]; [(0, q10 1)]])) with
+  | Done (EOk st) => idd st | _ => [] end = [Some (qc 1 2); None] /\
   ll_ilu0 (flat_of (mkCrs 3 [[(0, q10 2)]; [(0, q10 1)]; [(1, q10 1); (2, q10 1)]])) = UninitRead.
-Proof.
-  split; [eexists; split; [vm_compute; reflexivity|repeat split; vm_compute; reflexivity]|].
-  split; [vm_compute; reflexivity|]. split; [vm_compute; reflexivity|].
-  split; [eexists; split; [vm_compute; reflexivity|vm_compute; reflexivity]|vm_compute; reflexivity].
-Qed.
+Proof. repeat split; vm_compute; reflexivity. Qed.
